@@ -58,7 +58,12 @@ class AgentServer(asyncio.Protocol):
                     await self.actions_queue.put((addr, quit_message))
                     break
 
-                raw_message = data.decode().strip()
+                try:
+                    raw_message = data.decode().strip()
+                except UnicodeDecodeError:
+                    # undecodable bytes can't be a valid message - the Coordinator answers BAD_REQUEST
+                    self.logger.warning(f"Undecodable message from agent {addr}")
+                    raw_message = ""
                 self.logger.debug(f"Handler received from {addr}: {raw_message}")
 
                 # Step 2: Forward the message to the Coordinator
@@ -80,6 +85,11 @@ class AgentServer(asyncio.Protocol):
         except asyncio.CancelledError:
             self.logger.debug("Terminating by KeyboardInterrupt")
             raise
+        except Exception as e:
+            # connection failed (e.g., reset by peer) - remove the agent from the game
+            self.logger.warning(f"Connection with agent {addr} failed: {e}")
+            quit_message = Action(ActionType.QuitGame, parameters={}).to_json()
+            await self.actions_queue.put((addr, quit_message))
         finally:
             # Decrement the count of current connections
             self.current_connections -= 1
